@@ -142,8 +142,13 @@ def run_grid(case):
     dev = SimInverter(mode="file", seed=1)
     world.net.add_device(C.HOST, C.port_of(tr), dev)
     proto = C.make_protocol(tr, 0.25, 2, case["keep_alive"], addr)
+    # a second protocol object for another inverter with ANOTHER comm address issues the same commands in the same
+    # process: each object's frames must carry its own address
+    addr2 = (addr + 0x55) & 0xFF
+    world.net.add_device("10.0.0.2", C.port_of(tr), dev)
+    proto2 = C.make_protocol(tr, 0.25, 2, case["keep_alive"], addr2, host="10.0.0.2")
     violations = []
-    seen = []  # (cmd, frames seen by the peer incl. lost ones)
+    seen = []  # (cmd, frames seen by the peer incl. lost ones, rec, expected address)
     all_frames = []
 
     def on_tx(rec):
@@ -157,25 +162,28 @@ def run_grid(case):
                 world.net.begin_script([{"k": "drop"}], {"k": "ok"})
             else:
                 world.net.begin_script([], {"k": "ok"})
-            n0 = len(all_frames)
-            try:
-                rec = await C.do_execute(world, proto, cmd, "c%d" % i)
-            except Exception as e:  # command construction failed
-                rec = {"outcome": "construct:" + type(e).__name__, "exc": e}
-            seen.append((cmd, all_frames[n0:], rec))
+            for pr, ad in ((proto, addr), (proto2, addr2)) if i % 2 == 0 else ((proto2, addr2), (proto, addr)):
+                n0 = len(all_frames)
+                try:
+                    rec = await C.do_execute(world, pr, cmd, "c%d" % i)
+                except Exception as e:  # command construction failed
+                    rec = {"outcome": "construct:" + type(e).__name__, "exc": e}
+                seen.append((cmd, all_frames[n0:], rec, ad))
+                if case["lossy"] and i % 3 == 0:
+                    world.net.begin_script([{"k": "drop"}], {"k": "ok"})
 
     status, _ = C.run_world(world, main())
     if status != "ok":
         violations.append(viol("C03:hang", f"grid batch did not terminate: {status}"))
     parsed_all = []
-    for cmd, frames, rec in seen:
+    for cmd, frames, rec, ad in seen:
         op = cmd["op"]
         if rec["outcome"].startswith("construct:") or (not frames and rec["outcome"].startswith("other:")):
             neg = cmd.get("value", 0) < 0
             violations.append(viol(f"C03:construct:{op}:{'negative' if neg else 'arg'}",
                                    f"{cmd}: no frame was produced: {rec.get('exc')!r}"))
             continue
-        want = expect_frame(fr, addr, cmd)
+        want = expect_frame(fr, ad, cmd)
         for f in frames:
             try:
                 p = codec.parse_request(f, tr)
